@@ -4,7 +4,7 @@ From NDN Require Import Base.Prelude Base.Text Model.TlvVar Model.Name Model.Tlv
   Proofs.BytesLemmas Proofs.TlvVarProofs Proofs.NameWire Proofs.NameUri Proofs.TlvSplit Proofs.TlvRoundtrip
   Proofs.TlvRoundtrip2 Proofs.TlvMore Proofs.CertProofs Proofs.CertStrict Proofs.CertTime.
 Local Open Scope N_scope.
-Set Default Timeout 120.
+Set Default Timeout 900.
 
 Arguments N.of_nat : simpl never.
 Arguments N.to_nat : simpl never.
